@@ -92,6 +92,10 @@ def apply(st: St, op: list) -> None:
                 st.ents.append(c)
         elif k == 'nodeid':
             st.ents[op[1]]['nodeid'] = op[2]
+        elif k == 'nodeid_case':
+            st.ents[op[1]]['NodeID'] = op[2]          # keys are case-insensitive: this overwrites an existing "nodeid"
+        elif k == 'nodeid_update':
+            st.ents[op[1]].update({'NODEID': op[2]})
         elif k == 'delnode':
             del st.ents[op[1]]['nodeid']
         elif k == 'popnode':
@@ -119,6 +123,23 @@ def apply(st: St, op: list) -> None:
                                        Side(v0, [P(0, 0, 1), P(1, 0, 1), P(1, 1, 1)], des_id=d)])
             v0.add_brush(s)
             st.solids.append(s)
+        elif k == 'ctor_fails':
+            # a constructor call the library rejects (invalid argument): nothing is created, and the map's IDs stay sound
+            what, d = op[1], op[2]
+            if d == 'live':
+                d = next((s.id for s in st.solids if s is not None), 1)
+            try:
+                if what == 'solid':
+                    Solid(v0, id=d, sides=[], visgroup_ids=3)
+                elif what == 'side':
+                    Side(v0, [P(0, 0, 0), P(1, 0, 0)], des_id=d)
+                elif what == 'ent':
+                    Entity(v0, keys={'classname': 'x'}, fixup=5, ent_id=d)
+                elif what == 'group':
+                    EntityGroup(v0, id=d, shown='x', auto_shown=None, color=5)     # accepted by some versions: then it is just a group
+            except (TypeError, ValueError):
+                pass
+            gc.collect()
         elif k == 'scopy':
             _, i, v, des = op
             c = st.solids[i].copy(des_id=des, vmf_file=st.v[v])
@@ -225,6 +246,11 @@ def vis_ids(tree) -> list:
     return out
 
 
+def _node_keys(e) -> list:
+    """Every stored key that spells 'nodeid' in any case, with its value (a stale second spelling has its own future)."""
+    return sorted((k, v) for k, v in e._keys.items() if k.casefold() == 'nodeid')
+
+
 def vis_shape(tree) -> list:
     """Nested form for the canonical state: copies recurse into children, so [1[2]] and [1, 2] have different futures."""
     return [[g.id, vis_shape(g.child_groups)] for g in tree]
@@ -267,6 +293,9 @@ class Model(bfs.Model):
                     ops.append(['copy', i, 1, e.id])
                 for val in ('1', '2', 'x'):
                     ops.append(['nodeid', i, val])
+                ops.append(['nodeid_case', i, '2'])
+                ops.append(['nodeid_case', i, '1'])
+                ops.append(['nodeid_update', i, '2'])
                 ops.append(['delnode', i])
                 ops.append(['popnode', i])
                 ops.append(['clearent', i])
@@ -274,6 +303,8 @@ class Model(bfs.Model):
                 for name in DOCS:
                     ops.append(['parse', name])
             ops.append(['collapse'])
+            ops.append(['ctor_fails', 'ent', -1])
+            ops.append(['ctor_fails', 'ent', 1])
         elif p == 'solid':
             live = [i for i, s in enumerate(st.solids) if s is not None]
             if len(st.solids) < self.maxh:
@@ -297,6 +328,10 @@ class Model(bfs.Model):
             ops.append(['entsolid', 1])
             ops.append(['entcopy_brush'])
             ops.append(['collapse'])
+            for d in (-1, 1, 'live'):
+                ops.append(['ctor_fails', 'solid', d])
+            ops.append(['ctor_fails', 'side', -1])
+            ops.append(['ctor_fails', 'side', 1])
             if not st.solids:
                 ops.append(['parse', 'dup_solid'])
         elif p == 'group':
@@ -344,9 +379,9 @@ class Model(bfs.Model):
             out.append((sorted(vmf.ent_id._used), vmf.ent_id.search_pos, sorted(vmf.solid_id._used), vmf.solid_id.search_pos,
                         sorted(vmf.face_id._used), vmf.face_id.search_pos, sorted(vmf.group_id._used), sorted(vmf.vis_id._used),
                         sorted(vmf.node_id._used), vmf.node_id.search_pos,
-                        [(e.id, e['nodeid', None], [(s.id, [f.id for f in s.sides]) for s in e.solids]) for e in vmf.entities],
+                        [(e.id, _node_keys(e), [(s.id, [f.id for f in s.sides]) for s in e.solids]) for e in vmf.entities],
                         [(s.id, [f.id for f in s.sides]) for s in vmf.brushes], sorted(vmf.groups), vis_shape(vmf.vis_tree), vmf.spawn.id))
-        out.append([(None if e is None else (e.id, _in_map(e), e['nodeid', None])) for e in st.ents])
+        out.append([(None if e is None else (e.id, _in_map(e), _node_keys(e))) for e in st.ents])
         out.append([(None if s is None else (s.id, _brush_in_map(s), [f.id for f in s.sides])) for s in st.solids])
         out.append([[g.id, vis_shape(g.child_groups)] for g in st.vis])
         out.append([g.id for g in st.groups])
